@@ -24,7 +24,8 @@ fn fmt_pool(k: u64) -> Vec<FormatElement> {
 
 const POOL: u64 = 4 + 4 + 3 + 3 + 12;
 fn action_pool(k: u64) -> Action {
-    let files = ["a", "b", "c"];
+    // "a" / "./a" : names that a path normalisation would merge must stay distinct destinations
+    let files = ["a", "b", "./a"];
     match k {
         0 => Action::Print,
         1 => Action::PrintNull,
